@@ -31,7 +31,7 @@ import (
 	"verif/vk"
 )
 
-const c02Rule = "a logged-on session (memory, file or sqlite store), 2-6 real goroutines each submitting a generated list of application messages through queueForSend, while the main goroutine dispatches a generated list of run-loop events (TestRequests -> Heartbeats, defective messages -> Rejects, ResendRequests -> replays, heartbeat timer events, send-queue flushes); generated pauses (Gosched / 0-200 us) inside ToApp/ToAdmin and inside the store perturb the schedule; the unbuffered outbound channel is drained by one goroutine that stamps every frame; non-trivial = >=2 goroutines with an accepted send each and >=1 engine-generated message or replay overlapping them; distinct = distinct generated plan (schedules themselves are sampled, not enumerated). Sequential stage (epochs): one session (either role, memory or file store, persistence on/off, ResetOnLogon/Logout/Disconnect) driven through connects with a faithful counterparty (its Logon may carry ResetSeqNumFlag), an application that may set ResetSeqNumFlag on its outgoing Logon in ToAdmin, sends in any state, TestRequests, ResendRequests, heartbeat ticks, peer Logouts, disconnects and restarts on the file store; every save and every first-time frame is compared with a counter model; non-trivial there = a Logon or a store reset at a non-initial outbound number"
+const c02Rule = "a logged-on session (memory, file or sqlite store), 2-6 real goroutines each submitting a generated list of application messages through queueForSend, while the main goroutine dispatches a generated list of run-loop events (TestRequests -> Heartbeats, defective messages -> Rejects, ResendRequests -> replays, heartbeat timer events, send-queue flushes); generated pauses (Gosched / 0-200 us) inside ToApp/ToAdmin and inside the store perturb the schedule; the unbuffered outbound channel is drained by one goroutine that stamps every frame, in the sequential stage an operator moving the outbound counter while the session is down; non-trivial = >=2 goroutines with an accepted send each and >=1 engine-generated message or replay overlapping them; distinct = distinct generated plan (schedules themselves are sampled, not enumerated). Sequential stage (epochs): one session (either role, memory or file store, persistence on/off, ResetOnLogon/Logout/Disconnect) driven through connects with a faithful counterparty (its Logon may carry ResetSeqNumFlag), an application that may set ResetSeqNumFlag on its outgoing Logon in ToAdmin, sends in any state, TestRequests, ResendRequests, heartbeat ticks, peer Logouts, disconnects and restarts on the file store; every save and every first-time frame is compared with a counter model; non-trivial there = a Logon or a store reset at a non-initial outbound number"
 
 func c02() *stats.Collector {
 	c := stats.Get("C02")
